@@ -62,6 +62,29 @@ CHECKS = {
         "(accept / skip / error) are symbolic; asserts handler-runs => some alternative fully accepted, refused => 401 and one response, unmentioned schemes never consulted, and the 'if' "
         "direction outside the recorded fail-closed finding; (c) credential transport client->server for apiKey header/query/cookie, bearer, basic (real base64), oauth2 scopes with symbolic tokens.",
    design="4 C09", technique="symbolic execution of generated Go (go/ssa) + SMT; requirement structures enumerated, request dimension symbolic"),
+ "C20": dict(
+   text="Bounded symbolic model checking of cmd/ogen's real generate() and cleanDir(): under the engine the environment (ogen.Parse, gen.NewGenerator, WriteSource, os.ReadDir/"
+        "MkdirAll/Remove) is replaced by recording stubs with nondeterministic outcomes - failing stage, clean flag, target listing/absent/unreadable and fully symbolic file names "
+        "(7-12 bytes, plus near-miss frames) with symbolic IsDir; asserts a pre-write failure returns an error and performs no remove/mkdir/write, an unreadable target aborts before any "
+        "mutation, and cleaning removes exactly the listed regular files matching oas*/openapi* and *_gen.go/*_gen_test.go. The same harness stages a real scratch directory natively, so "
+        "every model replays against the real build. run()'s flag/config stages are outside.",
+   design="4 C20", technique="symbolic execution of go/ssa with nondeterministic environment stubs + SMT; native replay on a real scratch directory"),
+ "C02": dict(
+   text="KERNEL CLAIM ONLY: bounded symbolic model checking of the identifier synthesis in gen/names.go (pascal, pascalSpecial, pascalNonEmpty, camel, camelSpecial, cleanSpecial with "
+        "go/token.IsIdentifier, unicode case mapping and the naming rule table executed from SSA): for every ASCII name of 0..3 (5) bytes the result is an error or satisfies the Go "
+        "identifier grammar, is not a keyword and not '_'. That every accepted spec yields a compiling package is NOT decided (needs the whole generator and the Go type checker); the "
+        "generated matrices of C03/C04/C05/C09 type-check in every run as a concrete side-condition.",
+   design="4 C02", technique="symbolic execution of go/ssa + SMT over all short names (kernel)"),
+ "C07": dict(
+   text="KERNEL CLAIM ONLY: bounded symbolic model checking of jsonpointer.ResolveCtx (the cycle/depth mechanism): from every pre-state with 0..3 distinct in-progress references built "
+        "through the real AddKey, one AddKey/Delete with a symbolic key refuses exactly in-progress keys and over-deep nesting, keeps the representation invariant, and Delete restores "
+        "the pre-state; Key() at the root keys a local reference by (root, text). 'Referencing equals inlining' and the dereferenced-spec clause are NOT decided.",
+   design="4 C07", technique="symbolic execution of go/ssa + SMT, one inductive step from reachable pre-states (kernel)"),
+ "C11": dict(
+   text="KERNEL CLAIM ONLY: bounded symbolic model checking of totality (no panic) of the spec path-key handling - parser.pathID and parser.parsePath with real url.Parse, "
+        "uri.NormalizeEscapedPath and pathParser - on every byte string of 0..3 (5) bytes with and without a leading slash. Other kernels named by the property are in C12, C16, C08. "
+        "Whole-document totality, time/memory bounds and diagnostic positions are NOT decided.",
+   design="4 C11", technique="symbolic execution of go/ssa + SMT, no-panic over all short inputs (kernel)"),
 }
 
 NA = {
